@@ -1,5 +1,5 @@
 (* APIValidateProofs.v — proofs about Model/APIValidate.v in the vocabulary of Model/APIValidateSpec.v. *)
-From V Require Import APIValidateSpec.
+From V Require Import APIValidateSpec PathCleanProofs.
 From Coq Require Import Permutation.
 
 Lemma mem_in x l : mem_bytes x l = true <-> In x l.
@@ -334,10 +334,181 @@ Proof.
   now rewrite H1, H2.
 Qed.
 
-(* without the guard that the operation offers something, a validated API panics when served: F-C19-1 *)
 Definition ex_get : bytes := [71; 69; 84].
+
+(* ---- the route table of a validated API ----
+   AddRoute recovers the template of an operation from path.Join(basePath, template): for an empty or rooted
+   base path and a template in rooted normal form, cutting the cleaned base path off the front gives the
+   template back, so the handler is looked up under the very key the description declares.
+   (Same argument as C01's template_recovered, over this model's definitions.) *)
+Lemma split_slash_app a : forall t, split_slash (a ++ SL :: t) = split_slash a ++ split_slash t.
+Proof.
+  induction a as [|c a IH]; intros t; [cbn [app split_slash]; now rewrite Nat.eqb_refl|].
+  cbn [app split_slash]. destruct (Nat.eqb c SL); [now rewrite IH|]. rewrite IH.
+  destruct (split_slash a) as [|s l] eqn:E; [exfalso; now apply (split_slash_nonempty a)|]. reflexivity.
+Qed.
+
+Lemma join_slash_cons2 s s' l : join_slash (s :: s' :: l) = s ++ SL :: join_slash (s' :: l).
+Proof. reflexivity. Qed.
+
+Lemma join_slash_app k : forall l, k <> [] -> l <> [] -> join_slash (k ++ l) = join_slash k ++ SL :: join_slash l.
+Proof.
+  induction k as [|s k IH]; intros l Hk Hl; [contradiction|]. destruct k as [|s' k'].
+  - destruct l as [|t l']; [contradiction|]. reflexivity.
+  - change ((s :: s' :: k') ++ l) with (s :: s' :: (k' ++ l)). rewrite !join_slash_cons2.
+    change (s' :: k' ++ l) with ((s' :: k') ++ l). rewrite IH by (assumption || discriminate).
+    now rewrite <- app_assoc.
+Qed.
+
+Lemma plain_seg_slash_free s : plain_seg s = true -> s <> [] /\ forall z, In z s -> z <> SL.
+Proof.
+  unfold plain_seg. intros H. repeat (apply andb_true_iff in H; destruct H as [H ?]).
+  split; [destruct s; [discriminate|discriminate]|]. intros z Hz ->.
+  match goal with Hm : negb (mem_byte SL s) = true |- _ => apply negb_true_iff in Hm; unfold mem_byte in Hm end.
+  assert (existsb (Nat.eqb SL) s = true) by (apply existsb_exists; exists SL; split; [exact Hz|apply Nat.eqb_refl]).
+  congruence.
+Qed.
+
+Lemma join_last l : l <> [] -> forallb plain_seg l = true -> exists x z, join_slash l = x ++ [z] /\ z <> SL.
+Proof.
+  induction l as [|s l IH]; intros Hne Hp; [contradiction|].
+  cbn [forallb] in Hp. apply andb_true_iff in Hp. destruct Hp as [Hs Hl]. destruct l as [|s' l'].
+  - destruct (plain_seg_slash_free s Hs) as [Hsne Hsf].
+    destruct (exists_last Hsne) as (x & z & E). exists x, z. cbn [join_slash]. split; [exact E|].
+    apply Hsf. rewrite E. apply in_or_app. right. left. reflexivity.
+  - destruct (IH ltac:(discriminate) Hl) as (x & z & E & Hz). rewrite join_slash_cons2, E.
+    exists (s ++ SL :: x), z. split; [now rewrite <- app_assoc|exact Hz].
+Qed.
+
+Lemma trim_suffix_rooted k : forallb plain_seg k = true ->
+  (if has_suffix [SL] (rooted_of k) then removelast (rooted_of k) else rooted_of k) =
+  match k with [] => [] | _ => rooted_of k end.
+Proof.
+  intros Hp. destruct k as [|s k']; [reflexivity|].
+  destruct (join_last (s :: k') ltac:(discriminate) Hp) as (x & z & E & Hz).
+  unfold has_suffix, rooted_of. rewrite E. cbn [rev]. rewrite rev_app_distr. cbn [rev app has_prefix].
+  apply Nat.eqb_neq in Hz. rewrite Nat.eqb_sym, Hz. reflexivity.
+Qed.
+
+Lemma skipn_app_exact {A} (a b : list A) : skipn (length a) (a ++ b) = b.
+Proof. induction a; cbn; auto. Qed.
+
+Lemma trim_prefix_app p q : trim_prefix p (p ++ q) = q.
+Proof. unfold trim_prefix. now rewrite has_prefix_app, skipn_app_exact. Qed.
+
+Lemma trim_prefix_self p : trim_prefix p p = [].
+Proof. pose proof (trim_prefix_app p []) as H. now rewrite app_nil_r in H. Qed.
+
+Lemma clean_base_template b tsegs : forallb plain_seg tsegs = true ->
+  clean ((SL :: b) ++ SL :: rooted_of tsegs) = rooted_of (kept b ++ tsegs).
+Proof.
+  intros Hp. change ((SL :: b) ++ SL :: rooted_of tsegs) with (SL :: (b ++ SL :: rooted_of tsegs)).
+  rewrite clean_rooted. unfold rooted_of at 2. f_equal. f_equal. unfold kept.
+  rewrite split_slash_app. unfold rooted_of. change (SL :: join_slash tsegs) with ([] ++ SL :: join_slash tsegs).
+  rewrite split_slash_app. cbn [split_slash]. rewrite !norm_rooted_app.
+  cbn [norm_rooted is_empty orb].
+  destruct tsegs as [|t ts].
+  - cbn [join_slash split_slash norm_rooted is_empty orb]. now rewrite app_nil_r.
+  - rewrite split_join by (discriminate || now apply plain_slash_free).
+    rewrite (norm_rooted_id _ Hp). rewrite rev_app_distr, rev_involutive. reflexivity.
+Qed.
+
+(* the vocabulary of the spec in the form the argument uses *)
+Definition base_ok (base : bytes) : Prop := base = [] \/ exists b, base = SL :: b.
+Definition template_ok (t : bytes) : Prop := exists tsegs, t = rooted_of tsegs /\ forallb plain_seg tsegs = true.
+
+Lemma join_split p : join_slash (split_slash p) = p.
+Proof.
+  induction p as [|c r IH]; [reflexivity|]. cbn [split_slash].
+  destruct (split_slash r) as [|s t] eqn:E; [exfalso; now apply (split_slash_nonempty r)|].
+  destruct (Nat.eqb c SL) eqn:Ec.
+  - apply Nat.eqb_eq in Ec. subst c. rewrite join_slash_cons2. cbn [app]. now rewrite IH.
+  - cbn [cons_head]. rewrite <- IH. destruct t as [|s' t']; [reflexivity|]. now rewrite !join_slash_cons2.
+Qed.
+
+Lemma wf_base_ok b : wf_base b = true -> base_ok b.
+Proof.
+  destruct b as [|c r]; [now left|]. cbn [wf_base]. intros H. apply Nat.eqb_eq in H. subst c. right. now exists r.
+Qed.
+
+Lemma wf_template_ok t : wf_template t = true -> template_ok t.
+Proof.
+  unfold wf_template, rooted_normal. destruct t as [|c r]; [discriminate|]. intros H.
+  apply andb_true_iff in H. destruct H as [Hc Hr]. apply Nat.eqb_eq in Hc. subst c.
+  destruct r as [|x r'].
+  - exists []. split; reflexivity.
+  - cbn [is_empty orb] in Hr. exists (split_slash (x :: r')). split; [|exact Hr].
+    unfold rooted_of. now rewrite join_split.
+Qed.
+
+Theorem route_template_recovered d o : wf_base (g_base d) = true -> wf_template (op_path o) = true ->
+  route_template d o = op_path o.
+Proof.
+  intros Hb Ht. apply wf_base_ok in Hb. apply wf_template_ok in Ht. destruct Ht as (tsegs & Ht & Hp). unfold route_template, full_route. rewrite Ht. clear Ht.
+  destruct Hb as [E|[b E]]; rewrite E; clear E.
+  - (* no base path: path.Clean of the empty text is a single dot, which is no prefix of a rooted path *)
+    unfold path_join. cbn [rooted_of]. rewrite (clean_normal_id tsegs Hp).
+    unfold route_base, trim_prefix. reflexivity.
+  - unfold path_join. rewrite (clean_base_template b tsegs Hp).
+    unfold route_base. cbv zeta. rewrite clean_rooted.
+    change (SL :: join_slash (kept b)) with (rooted_of (kept b)).
+    match goal with |- context [trim_prefix ?x _] =>
+      replace x with (match kept b with [] => [] | _ => rooted_of (kept b) end)
+        by (symmetry; exact (trim_suffix_rooted (kept b) (kept_plain b))) end.
+    destruct (kept b) as [|s k'] eqn:Ek.
+    + cbn [app]. unfold trim_prefix. cbn [has_prefix length skipn]. reflexivity.
+    + destruct tsegs as [|t ts].
+      * rewrite app_nil_r. rewrite trim_prefix_self. reflexivity.
+      * unfold rooted_of at 2 3. rewrite join_slash_app by discriminate.
+        change (SL :: join_slash (s :: k') ++ SL :: join_slash (t :: ts))
+          with (rooted_of (s :: k') ++ rooted_of (t :: ts)).
+        rewrite trim_prefix_app. reflexivity.
+Qed.
+
+(* every declared operation of a validated API gets its route: the handler lookup of AddRoute cannot miss *)
+Theorem validated_routes a d o : validate a d = None -> In o (g_ops d) ->
+  wf_base (g_base d) = true -> wf_template (op_path o) = true -> route_added a d o = true.
+Proof.
+  intros V Ho Hb Ht. destruct (validated_lookups a d o V Ho) as [Hh _].
+  unfold route_added, handler_for. rewrite (route_template_recovered d o Hb Ht).
+  apply andb_true_iff. split; apply mem_in; [exact Hh|].
+  unfold required_ops. apply in_map_iff. now exists o.
+Qed.
+
+(* the hypotheses are needed, and satisfiable: a dotted template without a base path, under a dotted base path,
+   under a base path written with a trailing slash, and the base path repeated as the first segment *)
+Definition ex_items_json : bytes := [47; 105; 116; 101; 109; 115; 46; 106; 115; 111; 110].   (* /items.json *)
+Definition ex_base_ab : bytes := [47; 97; 46; 98].                                              (* /a.b *)
+Definition ex_base_ab_slash : bytes := [47; 97; 46; 98; 47].                                    (* /a.b/ *)
+Definition ex_tpl_ab_x : bytes := [47; 97; 46; 98; 47; 120].                                    (* /a.b/x *)
+Example ex_route_templates :
+  let d base := mkdesc base [] [] [] [] [] in
+  let o t := mkop ex_get t [] [] None in
+  route_template (d []) (o ex_items_json) = ex_items_json /\
+  route_template (d ex_base_ab) (o ex_items_json) = ex_items_json /\
+  route_template (d ex_base_ab_slash) (o ex_tpl_ab_x) = ex_tpl_ab_x /\
+  route_template (d ex_base_ab) (o ex_tpl_ab_x) = ex_tpl_ab_x /\
+  route_template (d ex_base_ab) (o [SL]) = [SL].
+Proof. vm_compute. repeat split. Qed.
+Example ex_wf : wf_base [] = true /\ wf_base ex_base_ab = true /\ wf_base ex_base_ab_slash = true /\
+                wf_template ex_items_json = true /\ wf_template ex_tpl_ab_x = true /\ wf_template [SL] = true.
+Proof. vm_compute. repeat split. Qed.
+
+(* a template outside the normal form is not served although the API validates: path.Join drops the trailing slash,
+   the handler is registered under the template as written *)
+Definition ex_tpl_trailing : bytes := [47; 97; 47].   (* /a/ *)
+Theorem validated_routes_needs_normal_template_refuted :
+  exists regs d o, validate (build_api regs) d = None /\ In o (g_ops d) /\ wf_base (g_base d) = true /\
+                   wf_template (op_path o) = false /\ route_added (build_api regs) d o = false.
+Proof.
+  exists [RWithoutJSON; ROperation ex_get ex_tpl_trailing], (mkdesc [] [] [] [] [] [mkop ex_get ex_tpl_trailing [] [] None]),
+         (mkop ex_get ex_tpl_trailing [] [] None).
+  split; [vm_compute; reflexivity|]. split; [now left|]. split; [reflexivity|]. split; vm_compute; reflexivity.
+Qed.
+
+(* without the guard that the operation offers something, a validated API panics when served: F-C19-1 *)
 Definition ex_path_a : bytes := [47; 97].
-Definition ex_desc : desc := mkdesc [] [] [] [] [mkop ex_get ex_path_a [] [] None].
+Definition ex_desc : desc := mkdesc [] [] [] [] [] [mkop ex_get ex_path_a [] [] None].
 Definition ex_regs : list reg := [RWithoutJSON; ROperation ex_get ex_path_a].
 
 Theorem validated_serves_needs_produces_refuted :
@@ -352,7 +523,7 @@ Qed.
 Definition ex_text : bytes := [116; 101; 120; 116; 47; 112; 108; 97; 105; 110].
 Example ex_validated :
   validate (build_api [RProducer ex_text; ROperation ex_get ex_path_a])
-           (mkdesc [JSON_MIME] [JSON_MIME] [] [] [mkop ex_get ex_path_a [] [ex_text] None]) = None.
+           (mkdesc [] [JSON_MIME] [JSON_MIME] [] [] [mkop ex_get ex_path_a [] [ex_text] None]) = None.
 Proof. vm_compute. reflexivity. Qed.
 
 (* Register* normalisation: media types are stored lower-cased, methods upper-cased *)
